@@ -102,6 +102,7 @@ impl Prop for C11 {
             max_tags: 2,
             extreme_ids: false,
             tag_values: 0,
+            tag_names: 0,
         };
         history(w, cfg, tier.pick(35, 120)).prop_map(|ops| Case { ops }).boxed()
     }
